@@ -70,4 +70,11 @@ CHECKS['C14'] = {'engine': 'E-A', 'technique': 'exhaustive metamorphic enumerati
     'text': 'For every in-scope declaration and every input: accepted -> for all (prefix, suffix) pairs up to length 1 (quick) / 2 (thorough) over the declaration alphabet the values are equal and unpack_impl returns len(prefix)+end; rejected -> error offsets shift by len(prefix).',
     'note': 'Reference used only to decide scope (region extent, regex-ended regions, reads before the offset). Excludes start-of-data positioning, class/element alignment, read-to-end, consume_delimiter=False.'}
 
+CHECKS['C17'] = {'engine': 'E-B', 'technique': 'explicit-state exploration: exhaustive enumeration of all operation histories up to depth 4/5 on real packets vs a three-variable reference model',
+    'text': 'All histories (set tracked field x3, set described field x3, delete, pack, unpack) of length <=4 (quick) / <=5 (thorough) from 6 initial states, for AutoLength, Auto, a described field inside a vectorised run and inside a referenced sub-packet, under generated / generic / pack-only / unpack-only / non-vectorised code: after every step the attribute reads, pack() output, absence of __dict__ and a bystander packet are compared with the model (enabled, explicit, a).',
+    'note': 'Model is 10 lines in mc/props/c17.py; lengths <= 7; depth bound as stated.'}
+CHECKS['C18'] = {'engine': 'E-A', 'technique': 'exhaustive enumeration of flat declarations x all subsets of fixed fields x concrete value assignments x a complete corpus up to a length bound',
+    'text': 'For every flat declaration of <=2 (thorough <=3) components over Int/Bits/Data in every sizing mode, every subset of fields fixed to the values of concrete packets (regex-metacharacter bytes first) with the rest Any(): the expression builds, every corpus string unpacking to an equal packet matches it, and filter() agrees with and without the pre-filter.',
+    'note': 'Corpus = all strings up to the bound over a base alphabet and over regex metacharacters; at most 6 (quick) / 16 (thorough) concrete assignments per declaration.'}
+
 NOT_APPLICABLE = {}
